@@ -49,7 +49,25 @@ var solvers = []solverSpec{
 	{"z3-5.1.0/relevancy1", func(file string, t int) []string {
 		return []string{"z3-new", fmt.Sprintf("-T:%d", t), "smt.relevancy=1", file}
 	}},
+	{"z3-5.1.0/seed7", func(file string, t int) []string {
+		return []string{"z3-new", fmt.Sprintf("-T:%d", t), "smt.random_seed=7", file}
+	}},
+	{"z3-5.1.0/seed7+arith2", func(file string, t int) []string {
+		return []string{"z3-new", fmt.Sprintf("-T:%d", t), "smt.random_seed=7", "smt.arith.solver=2", file}
+	}},
+	{"z3-5.1.0/seed23", func(file string, t int) []string {
+		return []string{"z3-new", fmt.Sprintf("-T:%d", t), "smt.random_seed=23", file}
+	}},
+	{"z3-4.8.12/seed7", func(file string, t int) []string {
+		return []string{"/usr/bin/z3", fmt.Sprintf("-T:%d", t), "smt.random_seed=7", file}
+	}},
 }
+
+// stage1 is tried first with a short timeout; stage2 (solver configurations and random seeds: the
+// run time of these quantified goals is heavy-tailed, restarts with other seeds are the cure) only
+// for what stage1 leaves open.
+var stage1 = []int{1, 0}
+var stage2 = []int{3, 4, 5, 6, 7, 8, 2}
 
 func runSolver(sp solverSpec, file string, timeoutSec int) (string, string, float64) {
 	return runSolverCtx(context.Background(), sp, file, timeoutSec)
@@ -265,17 +283,19 @@ func solveAll(prelude string, encs []*FnEnc, dir string, timeoutSec, workers int
 							}
 						}
 						if r == nil {
-							r = discharge(script, pf, tmo, false, order)
-						}
-						if r.Status != "unsat" && r.Status != "sat" {
-							r2 := discharge(script, pf, tmo, false, []int{2})
-							r.Tried = append(r.Tried, r2.Tried...)
-							if r2.Status == "unsat" || r2.Status == "sat" {
-								r2.Tried = r.Tried
+							t1 := 5
+							if tmo < t1 {
+								t1 = tmo
+							}
+							r = discharge(script, pf, t1, false, stage1)
+							if r.Status != "unsat" && r.Status != "sat" {
+								r2 := discharge(script, pf, tmo, false, stage2)
+								r2.Tried = append(r.Tried, r2.Tried...)
 								r2.Seconds += r.Seconds
+								if r2.Status == "error" && r.Status != "error" {
+									r2.Status = r.Status
+								}
 								r = r2
-							} else if r.Status == "error" && r2.Status != "error" {
-								r.Status = r2.Status
 							}
 						}
 						if agg == nil {
